@@ -81,8 +81,25 @@ fn extract_stdin_once() -> Result<Option<String>, Box<dyn std::error::Error>> {
     }
 }
 
+/// Command-line arguments as Strings; `std::env::args()` would panic on an argument that is not valid UTF-8
+fn utf8_args() -> Result<Vec<String>, String> {
+    std::env::args_os()
+        .map(|arg| {
+            arg.into_string().map_err(|arg| {
+                format!("argument is not valid UTF-8: {}", arg.to_string_lossy())
+            })
+        })
+        .collect()
+}
+
 pub fn run() {
-    let args: Vec<String> = std::env::args().collect();
+    let args = match utf8_args() {
+        Ok(args) => args,
+        Err(message) => {
+            eprintln!("Error: {message}");
+            std::process::exit(1);
+        }
+    };
     if let Err(e) = run_with_args(args, std::io::stdout()) {
         // Check if it's a clap help/version exit
         if let Some(clap_err) = e.downcast_ref::<clap::Error>() {
